@@ -57,7 +57,7 @@ func pageAll(w *World, name string, plan pagePlan, want [][]byte, fetch pageFetc
 	var next []byte
 	offset := uint64(0)
 	pages := 0
-	for guard := 0; guard < 200; guard++ {
+	for guard := 0; guard < 20000; guard++ {
 		pr := &query.PageRequest{Limit: plan.limit, Reverse: plan.reverse, CountTotal: plan.countTotal}
 		if plan.byOffset {
 			pr.Offset = offset
